@@ -61,12 +61,7 @@ func WhName(name string) string {
 // Scratch creates a private directory (tmpfs when available, or under $VERIF_SCRATCH_BASE) and points
 // TMPDIR at it, so that everything image.FromV1Image unpacks lands there. The caller removes it.
 func Scratch(prefix string) string {
-	base := os.Getenv("VERIF_SCRATCH_BASE")
-	if base == "" {
-		if st, err := os.Stat("/dev/shm"); err == nil && st.IsDir() {
-			base = "/dev/shm"
-		}
-	}
+	base := hx.ScratchBase() // $VERIF_SCRATCH_BASE, a roomy /dev/shm, or $TMPDIR — see hx/scratch.go
 	dir, err := os.MkdirTemp(base, prefix+"-*")
 	if err != nil {
 		panic(err)
@@ -116,6 +111,9 @@ func RunAll(lines []string, run func(string) string, scratch string, inproc bool
 		}(i, in, of)
 	}
 	wg.Wait()
+	if free := hx.FreeBytes(scratch); free < 256<<20 {
+		panic(fmt.Sprintf("scratch file system %s ran low (%d bytes free): replies may stem from ENOSPC, not from the code under test", scratch, free))
+	}
 	for i, of := range outs {
 		if errs[i] != nil {
 			panic(fmt.Sprintf("worker %d: %v", i, errs[i]))
@@ -124,8 +122,16 @@ func RunAll(lines []string, run func(string) string, scratch string, inproc bool
 		if err != nil {
 			panic(err)
 		}
-		for _, l := range strings.Split(strings.TrimRight(string(data), "\n"), "\n") {
-			c, r, _ := strings.Cut(l, "\t")
+		got := strings.Split(strings.TrimRight(string(data), "\n"), "\n")
+		chunk := lines[i*per : min((i+1)*per, len(lines))]
+		if len(got) != len(chunk) {
+			panic(fmt.Sprintf("worker %d answered %d of %d cases (scratch file system full? %d bytes free in %s)", i, len(got), len(chunk), hx.FreeBytes(scratch), scratch))
+		}
+		for j, l := range got {
+			c, r, ok := strings.Cut(l, "\t")
+			if !ok || c != chunk[j] {
+				panic(fmt.Sprintf("worker %d: reply %d does not belong to its case (truncated output? %d bytes free in %s)", i, j, hx.FreeBytes(scratch), scratch))
+			}
 			out.Emit(c, r)
 		}
 	}
